@@ -648,7 +648,11 @@ pub fn exec(dev: &mut Device, x: &RespondSpec, log: &mut Log) -> Option<Finding>
         }
     };
     // reference: what the same call leaves in a 7609-byte buffer
-    let reference: Vec<u8> = {
+    let ref_key = crate::prng::fnv(x.resp.to_json().compact().as_bytes());
+    let cached = dev.refs.get(&ref_key).cloned();
+    let reference: Vec<u8> = if let Some(r) = cached {
+        r
+    } else {
         let Some(b) = tx(dev, REF_CAP) else { return None };
         b.set_prior(1);
         match guard(|| {
@@ -661,6 +665,7 @@ pub fn exec(dev: &mut Device, x: &RespondSpec, log: &mut Log) -> Option<Finding>
             }
         }
     };
+    dev.refs.insert(ref_key, reference.clone());
     // "complete" = status 0x00 followed by exactly one well-formed CBOR item (or nothing)
     if reference.first() != Some(&0x00) {
         log.event(&format!("respond ref len={} status={:02x?}", reference.len(), reference.first()));
@@ -880,7 +885,8 @@ pub fn gen(seed: u64, run: u64, tier: &str) -> Vec<Step> {
     }
     // a second, different response travels through the same buffers in between, so that "what the
     // previous message left" is a different (shorter or longer) message, not only this one or 0x7F
-    let other_kind = run.wrapping_mul(7).wrapping_add(3 + rng.below(10));
+    // (one time in three it is another response of the same kind with other members and sizes)
+    let other_kind = if rng.chance(1, 3) { run + 10 * (1 + rng.below(5)) } else { run.wrapping_mul(7).wrapping_add(3 + rng.below(10)) };
     let other = random_spec(&mut rng, other_kind);
     for c in caps {
         let near = (c as i64 - size as i64).abs() <= 2 || c <= 3;
